@@ -22,13 +22,16 @@ PairsOrders == {"std", "poisonBeforeAki"}
 \* 2 in 20 another mutation.  The flag only changes in the toggle step.
 CompOf(mu) == CASE mu.m \in {"field", "unser"} -> mu.t  [] mu.m = "key-same-type" -> "keyid"
                  [] mu.m = "key-other-type" -> "keytype" [] mu.m = "value" -> "form"
+                 [] mu.m = "norm" -> "dataform"
                  [] OTHER -> mu.m   \* "hash", "sig"
-ProperMuts(b) == Muts(b.kind, b.key, b.hash) \ {NoMut}
+ProperMuts(b) == Muts(b.kind, b.key, b.hash, b.dform) \ {NoMut}
 MutCompsOf(b) == {CompOf(mu) : mu \in ProperMuts(b)}
 SimOpen ==
   \E k \in {RandomElement(Kinds)}, kt \in {RandomElement(KeyTypes)} :
     \E h \in {RandomElement(ObjHashes(k))}, sh \in {RandomElement(Shapes(k))} :
-      Open([kind |-> k, key |-> kt, hash |-> h, shape |-> sh])
+      \* (an object handed over as bytes: one session in two is about one signed in the plain form)
+      \E r \in {RandomElement(1..2)}, d0 \in {RandomElement(DataForms(k))} :
+        Open([kind |-> k, key |-> kt, hash |-> h, shape |-> sh, dform |-> IF r = 1 THEN "plain" ELSE d0])
 \* Refusals: after a call that presented the unmutated object 1 step in 20, after a mutated one 1 in 20, is an
 \* Interlude; unencodable presentations of the session's own object are mutations like the others.  After a refused
 \* step (the ghost `residue` is up) of a session whose calls build signed bytes: 10 in 20 the unmutated object (a
@@ -79,7 +82,9 @@ Row(h) ==
   ELSE
   LET c == CaseOf(base, h.call) IN
   [c |-> c, expect |-> h.res[1], e2e |-> h.res[2],
-   pkey |-> PKeyType(c), phash |-> PHash(c), psig |-> PSig(c),
+   pkey |-> PKeyType(c), phash |-> PHash(c), psig |-> PSig(c), pform |-> PForm(c),
+   list |-> IF c.kind = "LogList" THEN ListVerdict(c) ELSE h.res[1],
+   stage |-> IF c.kind = "LogList" THEN ListStage(c) ELSE "none",
    ctor |-> Constructible(PKeyType(c), c.allow), ctor0 |-> Constructible(PKeyType(c), FALSE), rot |-> h.rot]
 ExportWalk ==
   (Len(hist) = Depth + 1) =>
